@@ -408,4 +408,7 @@ def run(ctx: Ctx) -> None:
     rep.rule("C02.R7", "as C04.R1: the complete path map is committed on every evaluation, cache hit or not: the key a later evaluation reads through "
                        "dds.load (and hashes into its signature) is the one of the code as it is now, not of an earlier edit")
     commit_rules(ctx, top, "C02.R7")
+    if ctx.report.prop == "C02":
+        from .common import share_rules as _share8
+        _share8(ctx, "C08", "C02.R15", ["C08.R14"], "the memory store reports a stored blob present whatever its value (membership, not a look-up of the value): a kept function that returns None is not executed again at every evaluation")
 
